@@ -38,6 +38,15 @@ pub fn structural_checks(world: &WorldRef, prefix_ok: &mut HashMap<u32, (u64, u6
                     "log_gap",
                     json!({"node": id, "missing_index": expect, "next_present": e.index, "first": first, "last": last}),
                 );
+                // C08: a follower that accepted requests must keep a gap-free log
+                let role = w.oracle.lock().unwrap().views.get(id).map(|v| v.role).unwrap_or(-1);
+                if role != ROLE_LEADER {
+                    w.oracle.lock().unwrap().violate(
+                        "C08",
+                        "follower_gap_after_accept",
+                        json!({"node": id, "role": role, "missing_index": expect, "next_present": e.index, "first": first, "last": last}),
+                    );
+                }
                 break;
             }
             expect += 1;
@@ -162,7 +171,7 @@ pub fn structural_checks(world: &WorldRef, prefix_ok: &mut HashMap<u32, (u64, u6
 }
 
 /// C32: after heal + quiet period a leader exists, a fresh write commits, live voters catch up.
-pub async fn quiet_checks(world: &WorldRef, _hist: &HistoryRef) -> Value {
+pub async fn quiet_checks(world: &WorldRef, hist: &HistoryRef) -> Value {
     let (leader, up, voters_cfg) = {
         let w = world.borrow();
         let up = w.up_nodes();
@@ -235,6 +244,67 @@ pub async fn quiet_checks(world: &WorldRef, _hist: &HistoryRef) -> Value {
     if !committed {
         oracle.lock().unwrap().violate("C32", "write_not_committed_after_quiet", json!({"leader": lid, "term": lterm}));
         return out;
+    }
+    // C10/C11: final linearizable read of every key through the leader (an acknowledged write that was
+    // lost and never overwritten shows up here as a non-linearizable history)
+    {
+        let (cmd_tx, nkeys, inc) = {
+            let w = world.borrow();
+            let c = w.nodes.get(&lid).and_then(|n| n.as_ref()).and_then(|n| n.cur.as_ref());
+            (c.map(|c| c.cmd_tx.clone()), w.plan.keys, c.map(|c| c.inc).unwrap_or(0))
+        };
+        if let Some(cmd_tx) = cmd_tx {
+            for k in 0..nkeys {
+                let key = crate::clients::key_name(k);
+                let id = {
+                    let mut h = hist.borrow_mut();
+                    h.next_id += 1;
+                    h.next_id
+                };
+                let mut rec = HistOp {
+                    id,
+                    client: 999,
+                    kind: OpKind::ReadLin,
+                    keys: vec![key.clone()],
+                    value: None,
+                    expected: None,
+                    ttl: None,
+                    node: lid,
+                    node_inc: inc,
+                    path: 0,
+                    policy: Some(1),
+                    invoke_seq: crate::oracle::next_event_seq(),
+                    invoke_ms: crate::seams::vnow_ms(),
+                    ret_seq: 0,
+                    ret_ms: 0,
+                    outcome: Outcome::Indeterminate("final_read_failed".into()),
+                    node_died: false,
+                    apply_lag_at_ret: 0,
+                    marker: None,
+                    marker_present: false,
+                };
+                let req = d_engine_core::client::ClientReadRequest {
+                    client_id: 999,
+                    keys: vec![Bytes::from(key.clone())],
+                    consistency_policy: Some(d_engine_core::ReadConsistencyPolicy::LinearizableRead),
+                };
+                let (tx, rx) = MaybeCloneOneshot::new();
+                if cmd_tx.send(ClientCmd::Read(req, tx)).await.is_ok() {
+                    if let Ok(Ok(Ok(r))) = tokio::time::timeout(Duration::from_secs(5), rx).await {
+                        if r.error == ErrorCode::Success {
+                            if let Some(ClientResponsePayload::Read(rr)) = r.result {
+                                let v = rr.entries.iter().find(|e| e.key.as_ref() == key.as_bytes()).map(|e| String::from_utf8_lossy(&e.value).to_string());
+                                rec.outcome = Outcome::ReadOk(vec![v]);
+                                oracle.lock().unwrap().probe("final_linearizable_read_ok");
+                            }
+                        }
+                    }
+                }
+                rec.ret_seq = crate::oracle::next_event_seq();
+                rec.ret_ms = crate::seams::vnow_ms();
+                hist.borrow_mut().ops.push(rec);
+            }
+        }
     }
     tokio::time::sleep(Duration::from_secs(3)).await;
     // every live voter (per the leader's membership) applied up to the leader's commit index
@@ -472,7 +542,9 @@ pub fn final_checks(world: &WorldRef, hist: &HistoryRef) -> Value {
     let mut ids: HashMap<String, u32> = HashMap::new();
     let mut n_lin_reads = 0u64;
     let mut lease_read_ids: BTreeSet<u64> = BTreeSet::new();
-    let mut deposed_reads: BTreeSet<u64> = BTreeSet::new();
+    // op id -> does the read have the shape of known findings KF10/KF11 (>= 5 voters and at least one
+    // voter acknowledged the deposed leader within the lease window before the read)?
+    let mut deposed_reads: BTreeMap<u64, bool> = BTreeMap::new();
     for op in h.ops.iter() {
         let is_write = matches!(op.kind, OpKind::Put | OpKind::PutTtl | OpKind::Delete | OpKind::Cas(_));
         // C37: applied command equals the submitted operation
@@ -580,6 +652,35 @@ pub fn final_checks(world: &WorldRef, hist: &HistoryRef) -> Value {
                                     json!({"op": op.id, "index": idx, "apply_seq": seq, "reply_seq": op.ret_seq}),
                                 );
                             }
+                            // C10 direct form: the acknowledged write's entry is still what every live
+                                            // node holds at that index at the end of the run (unless compacted)
+                            for (nid, n) in w.nodes.iter() {
+                                let Some(cur) = n.as_ref().and_then(|n| n.cur.as_ref()) else { continue };
+                                let first = cur.raft_log.first_entry_id();
+                                let last = cur.raft_log.last_entry_id();
+                                if first == 0 || *idx < first || *idx > last {
+                                    continue;
+                                }
+                                let have = cur.raft_log.entry(*idx).ok().flatten();
+                                let same = have.as_ref().is_some_and(|e| {
+                                    d_engine_core::decode_entries(vec![e.clone()]).ok().and_then(|mut x| x.pop()).is_some_and(|a| match a.command {
+                                        Command::Insert { value, .. } | Command::CompareAndSwap { value, .. } => value == v.as_bytes(),
+                                        _ => false,
+                                    })
+                                });
+                                if !same {
+                                    let commit = oracle.lock().unwrap().views.get(nid).map(|x| x.commit_index).unwrap_or(0);
+                                    // an uncommitted divergent tail on a lagging node is legal; what counts is the committed part
+                                    if *idx <= commit {
+                                        oracle.lock().unwrap().violate(
+                                            "C10",
+                                            "acked_write_lost",
+                                            json!({"op": op.id, "value": v, "index": idx, "acked_by": op.node, "node": nid,
+                                                   "node_has_term": have.map(|e| e.term), "node_commit": commit}),
+                                        );
+                                    }
+                                }
+                            }
                             if let Some(c) = cas {
                                 if c != succeeded {
                                     oracle.lock().unwrap().violate(
@@ -619,6 +720,135 @@ pub fn final_checks(world: &WorldRef, hist: &HistoryRef) -> Value {
                     for (j, k2) in op.keys.iter().enumerate() {
                         if j > i && k2 == k && vals.get(i) != vals.get(j) {
                             oracle.lock().unwrap().violate("C35", "multiread_misaligned", json!({"op": op.id, "keys": op.keys, "got": vals}));
+                        }
+                    }
+                }
+            }
+        }
+        // ── C13: read policy routing (routing scenario: every read carries a marker key) ──
+        if let (Some(marker), true) = (&op.marker, matches!(op.kind, OpKind::ReadLin | OpKind::ReadLease | OpKind::ReadEventual | OpKind::ReadDefault | OpKind::MultiRead)) {
+            let dp = w.plan.knobs.default_policy;
+            let allow = w.plan.knobs.allow_override;
+            let eff = match (op.policy, allow) {
+                (Some(p), true) => p,
+                _ => dp,
+            };
+            let overridden = !allow && op.policy.is_some_and(|p| p != dp);
+            // the state-machine read that produced this answer: the last read on that node that
+            // carried this operation's marker key
+            let served: Option<crate::sm::ReadRecord> = w
+                .nodes
+                .get(&op.node)
+                .and_then(|n| n.as_ref())
+                .and_then(|n| {
+                    let obs = n.sm_obs.lock().unwrap();
+                    obs.read_log.iter().filter(|r| r.keys.iter().any(|k| k.as_ref() == marker.as_bytes())).last().cloned()
+                });
+            // role of the node over the whole window of the operation
+            let (was_leader_in_window, stable_nonleader) = {
+                let o = oracle.lock().unwrap();
+                let mut role_before = -1;
+                let mut leader = false;
+                let mut changes = 0;
+                for (t, n, r, _) in o.role_events.iter() {
+                    if *n != op.node {
+                        continue;
+                    }
+                    if *t < op.invoke_ms {
+                        role_before = *r;
+                    } else if *t <= op.ret_ms {
+                        changes += 1;
+                        if *r == ROLE_LEADER {
+                            leader = true;
+                        }
+                    }
+                }
+                if role_before == ROLE_LEADER {
+                    leader = true;
+                }
+                (leader, !leader && changes == 0 && (role_before == crate::oracle::ROLE_FOLLOWER || role_before == ROLE_LEARNER))
+            };
+            let pname = |p: u8| match p { 0 => "lease", 1 => "linearizable", _ => "eventual" };
+            let pathname = match op.path { 0 => "raw_cmd", 1 => "embedded", _ => "grpc_handler" };
+            match &op.outcome {
+                Outcome::ReadOk(_) => {
+                    oracle.lock().unwrap().probe("c13_read_ok");
+                    if op.marker_present {
+                        oracle.lock().unwrap().violate("C35", "multiread_misaligned", json!({"op": op.id, "marker_key_has_value": true}));
+                    }
+                    let tag = served.as_ref().map(|r| r.tag).unwrap_or("none");
+                    if served.is_some() {
+                        oracle.lock().unwrap().probe(&format!("c13_served_{tag}_{}", pname(eff)));
+                    }
+                    if eff != 2 {
+                        // effective policy is strong: only a leader may answer from local state
+                        let role_at_read = served.as_ref().map(|r| r.role);
+                        let nonleader = !was_leader_in_window || role_at_read.is_some_and(|r| r != ROLE_LEADER && r != -1);
+                        if nonleader && !op.node_died {
+                            let kind = if overridden { "override_ignored" } else { "nonleader_served_strong_read" };
+                            oracle.lock().unwrap().violate(
+                                "C13",
+                                kind,
+                                json!({"node": op.node, "role_at_read": role_at_read, "default": pname(dp), "requested": op.policy.map(pname),
+                                       "effective": pname(eff), "allow_override": allow, "path": pathname, "served_via": tag,
+                                       "fast_path": tag != "core", "op": op.id}),
+                            );
+                        } else if let Some(r) = &served {
+                            // a leader answered; was it under the effective policy?
+                            let fast = r.tag != "core";
+                            if eff == 1 && fast {
+                                // linearizable reads are only ever served by the Raft loop after a leadership check
+                                let kind = if overridden { "override_ignored" } else { "linearizable_read_served_by_fast_path" };
+                                oracle.lock().unwrap().violate(
+                                    "C13",
+                                    kind,
+                                    json!({"node": op.node, "role_at_read": r.role, "default": pname(dp), "requested": op.policy.map(pname),
+                                           "effective": pname(eff), "allow_override": allow, "path": pathname, "served_via": r.tag,
+                                           "fast_path": true, "lease_valid_at_read": r.lease_valid, "op": op.id}),
+                                );
+                            }
+                            if eff == 0 && fast && r.lease_valid == Some(false) {
+                                let kind = if overridden { "override_ignored" } else { "lease_policy_read_without_valid_lease" };
+                                oracle.lock().unwrap().violate(
+                                    "C13",
+                                    kind,
+                                    json!({"node": op.node, "role_at_read": r.role, "default": pname(dp), "requested": op.policy.map(pname),
+                                           "effective": pname(eff), "allow_override": allow, "path": pathname, "served_via": r.tag,
+                                           "fast_path": true, "lease_valid_at_read": false, "op": op.id}),
+                                );
+                            }
+                        }
+                    }
+                }
+                Outcome::Rejected(reason) if reason == "not_leader" => {
+                    oracle.lock().unwrap().probe("c13_not_leader_rejection");
+                    if eff == 2 && overridden && stable_nonleader && !op.node_died {
+                        // the server default (eventual) lets any node answer; rejecting means the
+                        // client's stronger policy was honoured although overrides are disallowed
+                        oracle.lock().unwrap().violate(
+                            "C13",
+                            "override_ignored",
+                            json!({"node": op.node, "default": pname(dp), "requested": op.policy.map(pname), "effective": pname(eff),
+                                   "allow_override": allow, "path": pathname, "served_via": "rejected_not_leader", "fast_path": false, "op": op.id}),
+                        );
+                    }
+                }
+                other => {
+                    // a stable follower/learner must tell the client it is not the leader
+                    if eff != 2 && stable_nonleader && !op.node_died && !matches!(other, Outcome::Unresolved(_)) {
+                        let running_whole_window = true;
+                        if running_whole_window {
+                            oracle.lock().unwrap().probe("c13_nonleader_strong_read_other_error");
+                            if let Outcome::Indeterminate(msg) = other {
+                                if !msg.contains("not ready") && !msg.contains("Unavailable") && !msg.contains("ConnectionTimeout") && !msg.contains("timed out") {
+                                    oracle.lock().unwrap().violate(
+                                        "C13",
+                                        "nonleader_did_not_say_not_leader",
+                                        json!({"node": op.node, "default": pname(dp), "requested": op.policy.map(pname), "effective": pname(eff),
+                                               "path": pathname, "answer": msg, "op": op.id}),
+                                    );
+                                }
+                            }
                         }
                     }
                 }
@@ -671,14 +901,65 @@ pub fn final_checks(world: &WorldRef, hist: &HistoryRef) -> Value {
                         .map(|(t, ev)| (*t, ev[0].node, ev[0].vtime_ms))
                         .next();
                     if let Some((nt, nl, at)) = newer {
-                        deposed_reads.insert(op.id);
+                        // who acknowledged this node recently? (cause attribution)
+                        let win = 2 * w.plan.knobs.lease_ms + w.plan.knobs.heartbeat_ms;
+                        let from = op.invoke_ms.saturating_sub(win);
+                        // fresh = the request the ACK answers was sent inside the window; late = the ACK was
+                        // delivered inside the window but answers a request sent before it
+                        let mut fresh_voters = 0u64;
+                        let mut late_voters = 0u64;
+                        let mut fresh_learners = 0u64;
+                        let mut acker_voted_newer = false;
+                        for ((l, f), times) in o.ack_times.iter() {
+                            if *l != op.node {
+                                continue;
+                            }
+                            let in_win: Vec<&(u64, u64)> = times.iter().filter(|(d, _)| *d >= from && *d <= op.ret_ms).collect();
+                            if in_win.is_empty() {
+                                continue;
+                            }
+                            let fresh = in_win.iter().any(|(_, sent)| *sent >= from);
+                            if w.plan.voters.contains(f) {
+                                if fresh {
+                                    fresh_voters += 1;
+                                } else {
+                                    late_voters += 1;
+                                }
+                                // did this acker grant its vote in a newer term before the read returned?
+                                if o.grants.iter().any(|((v, t), g)| v == f && *t > node_term && g.iter().any(|x| x.vtime_ms <= op.ret_ms)) {
+                                    acker_voted_newer = true;
+                                }
+                            } else {
+                                fresh_learners += 1;
+                            }
+                        }
+                        let nv = w.plan.voters.len() as u64;
+                        let majority_fresh = fresh_voters + 1 >= nv / 2 + 1;
+                        // cause classes of the open known findings (DESIGN.md §8.1)
+                        let cause = if fresh_voters >= 1 && !majority_fresh {
+                            // a minority of fresh voter ACKs completed to a "quorum" by stale match_index values
+                            "stale_match_index_completes_quorum"
+                        } else if majority_fresh && acker_voted_newer {
+                            // a real majority acknowledged recently, but one of them has since voted in a newer term
+                            "recent_acker_voted_in_newer_term"
+                        } else if fresh_voters == 0 && late_voters >= 1 {
+                            // the ACK of a request sent long ago (delayed delivery) confirmed leadership / renewed the
+                            // lease as if it answered the latest heartbeat
+                            "late_ack_of_old_request"
+                        } else {
+                            "other"
+                        };
+                        deposed_reads.insert(op.id, cause != "other");
                         let (p, k) = if is_lease_eff { ("C12", "lease_read_while_deposed") } else { ("C11", "linearizable_read_by_deposed_leader") };
                         o.violate(
                             p,
                             k,
                             json!({"node": op.node, "node_term": node_term, "newer_term": nt, "newer_leader": nl,
                                    "newer_leader_since_ms": at, "read_invoke_ms": op.invoke_ms, "path": op.path,
-                                   "voters": w.plan.voters.len()}),
+                                   "voters": w.plan.voters.len(), "fresh_voter_acks": fresh_voters,
+                                   "late_voter_acks": late_voters,
+                                   "fresh_learner_acks": fresh_learners, "majority_fresh": majority_fresh,
+                                   "acker_voted_newer": acker_voted_newer, "cause": cause}),
                         );
                     }
                 }
@@ -734,7 +1015,11 @@ pub fn final_checks(world: &WorldRef, hist: &HistoryRef) -> Value {
                     prop,
                     if prop == "C10" { "nonlinearizable_writes" } else { "stale_read_nonlinearizable" },
                     json!({"key": key, "ops": mini.len(), "has_lease_reads": has_lease, "has_lin_reads": has_lin,
-                           "read_served_by_deposed_leader": evs.iter().any(|e| deposed_reads.contains(&e.id)), "history": mini}),
+                           "read_served_by_deposed_leader": evs.iter().any(|e| deposed_reads.contains_key(&e.id)),
+                           "all_deposed_reads_have_known_cause":
+                               evs.iter().filter_map(|e| deposed_reads.get(&e.id)).all(|s| *s)
+                               && evs.iter().any(|e| deposed_reads.contains_key(&e.id)),
+                           "history": mini}),
                 );
             }
         }
